@@ -18,6 +18,7 @@
 # the LICENSES folder.
 
 from inspect import (
+    Parameter,
     Signature,
     signature,
 )
@@ -61,7 +62,13 @@ def _initialize_window_functions():
 
         if not ("M" in sig.parameters and "sym" in sig.parameters):
             continue
-        elif len(sig.parameters) > 2:
+        elif {
+            _.name
+            for _ in sig.parameters.values()
+            if not (_.kind is Parameter.KEYWORD_ONLY and _.default is not _.empty)
+        } != {"M", "sym"}:
+            # Optional keyword-only parameters (e.g., the array namespace
+            # arguments added in newer versions of SciPy) are ignored.
             continue
 
         _WINDOW_FUNCTIONS[name] = func
